@@ -93,9 +93,10 @@ func (se *SessionExecutor) checkSQLAllowed(reqCtx *util.RequestContext, sql stri
 	stmtType := parser.Preview(sql)
 	reqCtx.SetStmtType(stmtType)
 	checkedType := stmtType
-	if stmtType == parser.StmtComment {
-		// "/*!40101 insert ... */" is executed by the backend: check what it holds
-		checkedType = parser.PreviewSpecialComment(sql)
+	if stmtType == parser.StmtComment || stmtType == parser.StmtWith {
+		// "/*!40101 insert ... */" is executed by the backend, "with ... delete ..."
+		// is a DELETE: check the statement they hold
+		checkedType = parser.PreviewMainStatement(sql)
 	}
 	if isSQLNotAllowedByUser(se, checkedType) {
 		return fmt.Errorf("write DML is now allowed by read user")
